@@ -459,8 +459,8 @@ Proof.
     destruct ref; try phi_leaf.
     + destruct (is_nullsafe a); phi_leaf.
     + destruct (is_nullsafe a); phi_leaf.
-    + destruct oi as [i|]; [|phi_leaf]. destruct (i =? -1)%Z; [phi_leaf | apply IH].
-    + destruct k; [phi_leaf | apply IH].
+    + destruct oi as [i|]; [apply IH | phi_leaf].
+    + destruct oi as [i|]; [phi_leaf | apply IH].
 Qed.
 
 Lemma phi_print_dirs l : Phi (print_dirs cf w l).
